@@ -39,6 +39,10 @@ func c20Gen(t *rapid.T, tier Tier) interface{} {
 			}
 			b.WriteString(gen.CSSHostile(t, 1))
 		}
+		if rapid.IntRange(0, 3).Draw(t, "tail") == 0 {
+			// the last token of the list is not the end of the source
+			b.WriteString(rapid.SampledFrom([]string{"/**/", "/* c */", " /**/"}).Draw(t, "tailc"))
+		}
 		c.Src, c.Gen = b.String(), "adjacent"
 	} else {
 		c.Src, c.Gen = gen.CSSText(t)
